@@ -199,11 +199,13 @@ func ZipRelPath(r *rand.Rand, hostile bool) string {
 	return p
 }
 
+const zipContentAlphabet = "abc \n\x00\xffxyz{}"
+
 func zipSmallContent(r *rand.Rand) []byte {
 	n := r.Intn(24)
 	b := make([]byte, n)
 	for i := range b {
-		b[i] = "abc \n\x00\xffxyz{}"[r.Intn(14)]
+		b[i] = zipContentAlphabet[r.Intn(len(zipContentAlphabet))]
 	}
 	return b
 }
